@@ -64,6 +64,7 @@ Section Mono.
       revert H2. apply forall2b_mono'. intros [ka wa] [kb wb]. unfold bagpair_eqb. cbn [fst snd].
       intro Hp. apply andb_true_iff in Hp. destruct Hp as [Hk Hw]. rewrite (widen _ _ Hw), andb_true_r.
       destruct ka, kb; try discriminate; auto.
+      revert Hk. apply forall2b_mono'. intros [c|] [d|]; auto.
   Qed.
 
   Lemma kind_eqb_mono k1 k2 : kind_eqb ne k1 k2 = true -> kind_eqb ne' k1 k2 = true.
@@ -262,6 +263,17 @@ Proof.
   - apply strs_eqb_iff. reflexivity.
 Qed.
 
+Definition comp_eqb (c d : option xq) : bool :=
+  match c, d with Some p, Some q => xnumeq p q | None, None => true | _, _ => false end.
+
+Lemma comp_list_iff (l1 l2 : list (option xq)) : forall2b comp_eqb l1 l2 = true <-> l1 = l2.
+Proof.
+  split.
+  - apply forall2b_eq. apply Forall_forall. intros [p|] _ [q|]; cbn; try discriminate; auto.
+    intro H. apply numeq_iff in H. congruence.
+  - intros <-. apply forall2b_refl. apply Forall_forall. intros [p|] _; cbn; auto. apply numeq_refl.
+Qed.
+
 Lemma bagpair_eqb_iff (a b : bagkey Xq * xq) : bagpair_eqb xnumeq a b = true <-> a = b.
 Proof.
   destruct a as [ka wa], b as [kb wb]. unfold bagpair_eqb. cbn [fst snd]. split.
@@ -269,8 +281,12 @@ Proof.
     destruct ka, kb; try discriminate; auto.
     + apply numeq_iff in Hk. congruence.
     + apply String.eqb_eq in Hk. congruence.
+    + apply (proj1 (comp_list_iff _ _)) in Hk. congruence.
   - intro H. injection H as -> ->. rewrite numeq_refl, andb_true_r.
-    destruct kb; auto. apply numeq_refl. apply String.eqb_refl.
+    destruct kb; auto.
+    + apply numeq_refl.
+    + apply String.eqb_refl.
+    + apply (proj2 (comp_list_iff l l)). reflexivity.
 Qed.
 
 Lemma baglist_iff (l1 l2 : list (bagkey Xq * xq)) :
@@ -284,7 +300,11 @@ Qed.
 Lemma trans_eqb_iff a b : trans_eqb a b = true <-> a = b.
 Proof. destruct a, b; cbn; split; congruence. Qed.
 Lemma range_eqb_iff a b : range_eqb a b = true <-> a = b.
-Proof. destruct a, b; cbn; split; congruence. Qed.
+Proof.
+  destruct a, b; cbn; split; try congruence.
+  - intro H. apply Nat.eqb_eq in H. congruence.
+  - intro H. injection H as ->. apply Nat.eqb_refl.
+Qed.
 
 Lemma leaf_eqb_iff k1 q1 s1 k2 q2 s2 :
   leaf_eqb xnumeq k1 q1 s1 k2 q2 s2 = true <-> content_leaf k1 q1 s1 = content_leaf k2 q2 s2.
